@@ -63,5 +63,5 @@ let iso_handler sh = fun args ->
   String.concat "" (List.map (fun (r, d) -> "#" ^ res_str r ^ "|" ^ string_of_bytes d) steps)
 
 let () =
-  register "iso" (iso_handler true);          (* the code as it is: shared static nulls *)
-  register "iso_fixed" (iso_handler false)    (* a fresh null per parsed null / per hole *)
+  register "iso" (iso_handler false);         (* the code as it is: a fresh null per parsed null / per hole *)
+  register "iso_old" (iso_handler true)       (* historical: the shared static nulls of the tree before fix b456e5d1 *)
